@@ -26,11 +26,13 @@ OBLIGATIONS.append(dict(name="blockwriter_io_failure_h2_nb2", harness="harness/C
     included_sources=["lib/sqfs/src/block_writer.c"], defines=dict(H=2, NB=2, SZ=2, MODE=3), unwind=14, tiers=["thorough"], timeout=1200, fp_map=FPIO,
     reach=["io_error_reported", "stored"], functions=["write_data_block, deduplicate_blocks (lib/sqfs/src/block_writer.c)"],
     bound="history of 2 blocks, one new 2-block file, every file operation may fail"))
-OBLIGATIONS.append(dict(name="meta_writer_io_failure", harness="harness/C03_metaw.c", sources=[], included_sources=["lib/sqfs/src/meta_writer.c"],
-    pre_include=["stubs/vp_pre_meta.h"], defines=dict(VP_META=4, A=3, NAPP=2, VP_CMP_MAXOUT=4, IOFAIL=1), unwind=10, unwindset={"vp_cmp_init.0": 5, "vp_cmp_init.1": 5},
-    tiers=["thorough"], timeout=900, fp_map=FPIO, reach=["compressor_error"], allow_unreached=True,
-    functions=["sqfs_meta_writer_append/flush, write_block, sqfs_meta_write_write_to_file (lib/sqfs/src/meta_writer.c)"],
-    bound="2 appends of <= 3 bytes, block size 4, every write_at may fail"))
+def mwio(m, a, napp, tiers, timeout):
+    return dict(name="meta_writer_io_failure_m%d_a%d_n%d" % (m, a, napp), harness="harness/C03_metaw.c", sources=[], included_sources=["lib/sqfs/src/meta_writer.c"],
+        pre_include=["stubs/vp_pre_meta.h"], defines=dict(VP_META=m, A=a, NAPP=napp, VP_CMP_MAXOUT=m, IOFAIL=1), unwind=max(m + 4, a + 2, 10), unwindset={"vp_cmp_init.0": 5, "vp_cmp_init.1": 5},
+        tiers=tiers, timeout=timeout, fp_map=FPIO, reach=["compressor_error"], allow_unreached=True,
+        functions=["sqfs_meta_writer_append/flush, write_block, sqfs_meta_write_write_to_file (lib/sqfs/src/meta_writer.c)"],
+        bound="%d appends of <= %d bytes, block size %d, every write_at may fail" % (napp, a, m))
+OBLIGATIONS += [mwio(3, 3, 1, ["quick", "thorough"], 300), mwio(4, 3, 2, ["thorough"], 900)]
 
 ASSUMPTIONS = ["allocation failure is modelled at the constructor / copy-hook level (stub returns NULL nondeterministically)", "I/O failure through the memfile stub (vp_io_may_fail)"]
 OUTSIDE = ["whole-tool exit status and 'exit 0 => output identical to a fault-free run' (follows per function, not checked end to end)", "fault positions in functions that are not harnessed"]
